@@ -248,7 +248,7 @@ func genExtra(t *rapid.T, i int) fsx.Tree {
 	n := rapid.IntRange(0, 4).Draw(t, "nextra")
 	for j := 0; j < n; j++ {
 		name := fmt.Sprintf("extra%d", j)
-		switch rapid.IntRange(0, 4).Draw(t, "extrakind") {
+		switch rapid.IntRange(0, 20).Draw(t, "extrakind") % 8 {
 		case 0:
 			tr = append(tr, fsx.Node{Path: "docs/" + name + ".md", Kind: "file", Content: fmt.Sprintf("doc %d %d", i, j), Mode: 0644, Sec: 1500000100})
 		case 1:
@@ -257,8 +257,15 @@ func genExtra(t *rapid.T, i int) fsx.Tree {
 			tr = append(tr, fsx.Node{Path: "empty-" + name, Kind: "dir", Mode: 0755, Sec: 1500000300})
 		case 3:
 			tr = append(tr, fsx.Node{Path: "link-" + name, Kind: "symlink", Target: "pkg.txt"})
-		default:
+		case 4:
 			tr = append(tr, fsx.Node{Path: "ro/" + name, Kind: "file", Content: "readonly", Mode: 0444, Sec: 1500000400, Nsec: 500000000})
+		case 5:
+			tr = append(tr, fsx.Node{Path: "shared/" + name, Kind: "file", Content: "world-writable", Mode: 0666, Sec: 1500000500})
+		case 6:
+			tr = append(tr, fsx.Node{Path: "open-" + name, Kind: "dir", Mode: 0777, Sec: 1500000600}, fsx.Node{Path: "open-" + name + "/f", Kind: "file", Content: "x", Mode: 0600, Sec: 1500000601})
+		default:
+			// (7 % 8 occurs for 7 and 15 only: links to directories make the package checksum fail)
+			tr = append(tr, fsx.Node{Path: "dirlink-" + name, Kind: "symlink", Target: "docs"}, fsx.Node{Path: "docs/index.md", Kind: "file", Content: "idx", Mode: 0644, Sec: 1500000700})
 		}
 	}
 	return tr
